@@ -4,8 +4,11 @@ from props.lifecycle_common import run_lifecycle
 
 def run(ctx):
     if ctx.quick:
-        run_lifecycle(ctx, bfs=[("P1", 3, 3), ("P2", 2, 3), ("P3", 2, 3)], emit=[("P0", 2, 3), ("P4", 1, 2)],
+        run_lifecycle(ctx, bfs=[("P1", 3, 3), ("P2", 2, 3), ("P3", 2, 3), ("U1", 3, 3), ("U2", 3, 3)],
+                      emit=[("P0", 2, 3), ("P4", 1, 2), ("U1", 1, 2), ("U2", 1, 2), ("U3", 1, 1)],
                       sim=[("P1", 4, 4, 100, 16), ("P2", 3, 4, 60, 14), ("P3", 3, 4, 60, 14)])
     else:
-        run_lifecycle(ctx, bfs=[("P1", 4, 4), ("P2", 3, 4), ("P3", 3, 4)], emit=[("P0", 3, 4), ("P4", 2, 3), ("P3", 2, 2)],
-                      sim=[("P1", 6, 6, 1500, 24), ("P2", 5, 6, 1000, 22), ("P3", 5, 6, 1000, 22)])
+        run_lifecycle(ctx, bfs=[("P1", 4, 4), ("P2", 3, 4), ("P3", 3, 4), ("U1", 4, 4), ("U2", 4, 4)],
+                      emit=[("P0", 3, 4), ("P4", 2, 3), ("P3", 2, 2), ("U1", 2, 3), ("U2", 2, 3), ("U3", 2, 2)],
+                      sim=[("P1", 6, 6, 1500, 24), ("P2", 5, 6, 1000, 22), ("P3", 5, 6, 1000, 22),
+                           ("U1", 5, 6, 600, 22), ("U2", 5, 6, 600, 22)])
